@@ -5,7 +5,7 @@ AREA = "execclient"
 EXTRACT_V = "ExecClient/Extract.v"
 GO_CMD = "hx-stream"
 NO_MODEL_RUNS = ("packx",)   # sort.Slice on long unordered slices is not stable: only the monitor applies
-PARALLEL = 8
+PARALLEL = 12
 RUN_TIMEOUT = 1200
 RULE = ("one case = a chain (logs per block with removed flags, up to 38 logs in a block), follow distance, batch "
         "size, start block and an environment schedule (subscribe ok/fail, heads - increasing, repeated, older, "
@@ -65,7 +65,7 @@ LEVEL_NOTE = ("Trusted: Coq kernel + vm_compute, extraction (ExtrOcamlBasic), OC
 def runs(tier, seed):
     if tier == "thorough":
         r = [("exhaustive%d" % i, ["exhaustive", "-heads", "5", "-shard", "%d/24" % i]) for i in range(24)]
-        r += [("gen%d" % i, ["gen", "-seed", str(seed * 1000 + i), "-n", "8000"]) for i in range(12)]
+        r += [("gen%d" % i, ["gen", "-seed", str(seed * 1000 + i), "-n", "5000"]) for i in range(12)]
         r += [("pack", ["pack", "-seed", str(seed), "-n", "30000"]), ("packx", ["packx", "-seed", str(seed), "-n", "10000"])]
         return r
     r = [("exhaustive%d" % i, ["exhaustive", "-heads", "3", "-shard", "%d/4" % i]) for i in range(4)]
